@@ -323,7 +323,8 @@ def ref_expand(tree, defs):
 
 
 def ref_shrink(tree, root=True):
-    """every outermost parenthesised group holding a Def-expand tag becomes Def/…; None if some group holds two"""
+    """every outermost parenthesised group holding a Def-expand tag becomes Def/… of its FIRST such tag (a group
+    written with several Def-expand tags is not the expansion of anything; the code keeps the first)"""
     out = []
     for t in tree:
         if isinstance(t, str):
@@ -389,8 +390,15 @@ def gen_annotation(rng, defs_known, depth=3):
             return [t, ["Green", "Blue"]]
         if r < 0.78:
             return body + [rng.choice(PLAIN)]
-        if r < 0.84:
+        if r < 0.82:
             return [t, def_tag("Def-expand")] + body[1:]
+        if r < 0.84:     # two or three Def-expand tags, each followed by a content
+            out = list(body)
+            for _ in range(rng.randint(1, 2)):
+                t2 = def_tag("Def-expand")
+                e2 = ref_expansion(defs_known, t2.split("/", 1)[1])
+                out += [t2] + (e2[1:] if e2 else [["Blue"]])
+            return out if rng.random() < 0.5 else shuffle(rng, out)
         if r < 0.90:
             return [t] + [[def_tag("Def")] + (body[1] if len(body) > 1 else [])]
         return [t]
@@ -593,12 +601,12 @@ def check_history(ctx, env, def_strings, hed, ops, model=None):
         ctx.disagree("Defs.runG = expand_defs/shrink_defs/copy/validate/str on one HedString", case,
                      {"start": model["start"], "steps": msteps}, {"start": start, "steps": isteps})
     # ---- oracle: the history is the composition of the two rewrites and never raises
-    degenerate = two_de_somewhere(t0)
-    state, had_two = t0, degenerate
+    if two_de_somewhere(t0):
+        ctx.count("history-with-group-of-several-def-expand-tags")
+    state = t0
     for k, (op, st) in enumerate(zip(ops, steps)):
         if "err" in st:
-            if not (degenerate and st["err"] == "KeyError"):
-                ctx.violation("history-step-raised", case, {"step": k, "op": op, "error": st["err"]})
+            ctx.violation("history-step-raised", case, {"step": k, "op": op, "error": st["err"]})
             return
         if st.get("not_self"):
             ctx.violation("operation-did-not-return-self", case, {"step": k, "op": op})
@@ -607,11 +615,9 @@ def check_history(ctx, env, def_strings, hed, ops, model=None):
         if op == "expand":
             state = ref_expand(state, refd)
             ctx.count("oracle-expand")
-        elif op == "shrink" and not degenerate:
+        elif op == "shrink":
             state = ref_shrink(state)
             ctx.count("oracle-shrink")
-        if degenerate:
-            continue
         got = parse(st["s"])
         if canon(got) != canon(state):
             clause = {"expand": "expand-replaces-exactly-the-defined-defs", "shrink": "shrink-restores-def-tags"}.get(
@@ -828,6 +834,10 @@ BASE_OBJECTS = [
     (GOOD_DEFS + BAD_DEFS, "Def/X12, Def/X9, (Def/X6, Def/a)"),
     ([], "Def/A, (Def-expand/A, (Red))"),
     (GOOD_DEFS, "(Def-expand/A, Def-expand/B, (Red))"),
+    (GOOD_DEFS, "(Def/A, Def/B), (Def/A, Def/B, Def/E, (Def/Spd/3, Def/Lab/x))"),
+    (GOOD_DEFS, "(Def-expand/A, (Red), Def-expand/B, (Blue)), Green"),
+    (GOOD_DEFS, "((Def-expand/B, (Green)), Def-expand/A, (Blue, Red), Def-expand/E), (Def-expand/E, Def-expand/Em, Def-expand/Zed)"),
+    (GOOD_DEFS, "(Item, (Def-expand/A, Def-expand/A, (Blue, Red), (Def-expand/B, Def-expand/Spd/3, (Green))))"),
     (GOOD_DEFS, "(Def-expand/Acc/3, (Blue, (Red, Acceleration/3 m-per-s^2))), (Def/Acc/3)"),
 ]
 
@@ -887,7 +897,8 @@ def placeholder_order_work(env, cap):
 # ---- parent pointers: the model's `copyTag = false` variant against the real objects when `validate` hands the
 # live tag to get_definition (a scratch copy of the package with `return_copy_of_tag=True` switched off)
 VARIANT_HEDS = ["Def/Spd/3", "(Def-expand/Spd/3, (Speed/3 mph)), Red", "(Def/Spd/3, Blue), Def/A",
-                "(Item, (Def/Nest, (Def/Lab/x7, Def/E))), Def/Em", "(Def-expand/A, (Red, Blue)), Def/B, (Def/Zed, Def/A/3)"]
+                "(Item, (Def/Nest, (Def/Lab/x7, Def/E))), Def/Em", "(Def-expand/A, (Red, Blue)), Def/B, (Def/Zed, Def/A/3)",
+                "(Def-expand/A, (Red), Def-expand/B, (Blue)), (Def/A, Def/B)"]
 
 
 def variant_work(maxlen):
@@ -995,7 +1006,9 @@ def run(ctx):
                 work.append((defs, hed, list(ops)))
     for defs, hed in BASE_OBJECTS[nbase:]:
         for ops in (["expand", "expand", "str"], ["expand", "shrink", "expand"], ["shrink", "expand", "validate"],
-                    ["validate", "expand", "validate", "shrink", "validate"], ["copy", "expand", "copy", "shrink"]):
+                    ["validate", "expand", "validate", "shrink", "validate"], ["copy", "expand", "copy", "shrink"],
+                    ["shrink", "shrink", "str"], ["expand", "shrink", "shrink", "expand", "shrink"],
+                    ["shrink", "validate", "expand", "expand"]):
             work.append((defs, hed, ops))
     ctx.extra["exhaustive"] = {"base_objects": nbase, "max_len": maxlen, "sequences": len(work)}
     # random definition sets x annotations x sequences
@@ -1026,7 +1039,6 @@ def run(ctx):
         defs = gen_defset(rng) if rng.random() < 0.5 else GOOD_DEFS
         refd, _ = ref_accept(defs, env.takes_value_tag, env.bad_prop_tag)
         cells = [render(gen_annotation(rng, refd, depth=2), rng) for _ in range(rng.randint(1, 5))]
-        cells = [c for c in cells if not two_de_somewhere(parse(c))]     # shrink_defs raises KeyError on those
         if rng.random() < 0.5 or not cells:
             cells.append("Red, Blue")      # (an empty Series has no string dtype: not generated)
         check_frames(ctx, env, defs, cells)
